@@ -97,14 +97,27 @@ func Harness_C07_Sensitivity() {
 	q2.enpassant = Square(e2)
 	verifAssert(h^zt.Hash(&q2, turn) == zt.enpassant[e1]^zt.enpassant[e2], "e.p. target changes the hash by the XOR of the two e.p. table words")
 
-	// content of one square: remove the piece standing on sq
+}
+
+// content of one square: removing the piece standing there changes the hash by exactly its
+// table word (square, colour and kind are case-split: the table word is then one free variable)
+func Harness_C07_SensitivityPiece() {
 	sq := splitSquare("sq")
-	c, k, ok := p.Square(sq)
-	if ok {
-		q3 := *p
-		q3.xor(sq, c, k)
-		verifAssert(h^zt.Hash(&q3, turn) == zt.pieces[c][k][sq], "removing a piece changes the hash by exactly its table word")
-	}
+	c := Color(verifSplit(uint64(nondetU8("colour")), 0, 1))
+	k := Piece(verifSplit(uint64(nondetU8("kind")), 1, 6))
+	zt := symZobrist()
+	r := symRefPos()
+	verifAssume(refDisjoint(r))
+	verifAssume(r.castling <= 15 && r.ep <= 63)
+	verifAssume(r.pc[c][k]&refBit(int(sq)) != 0)
+	turn := Color(nondetU8("turn"))
+	verifAssume(turn <= Black)
+	p := toPosition(r)
+	h := zt.Hash(p, turn)
+	verifReach("sensitivity-piece")
+	q3 := *p
+	q3.xor(sq, c, k)
+	verifAssert(h^zt.Hash(&q3, turn) == zt.pieces[c][k][sq], "removing a piece changes the hash by exactly its table word")
 }
 
 // refGeomPossible: necessary condition on (from, to) for a move of the given kind by any piece.
